@@ -120,6 +120,44 @@ def sched_check(obs_vs):
     return [(k + ":under-some-schedule", d) for k, d in vs]
 
 
+def flood_models(n, younger):
+    """younger: the persistent peer's dialled connection is younger than the busy inbound one (its threads run after the busy
+    connection's, so its wake-up request lands behind the others in the pipe) - or older."""
+    c = cfg(True, False, 2)
+    c["peers"].append({"name": "peer2.example.org"})
+    c["apps"][0]["peers"] = [0, 1]
+    if younger:
+        pre = [("accept",), ("m", 0, "cer_p1"), ("plan", "ok"), ("tick", 1), ("tick", 1), ("tick", 1), ("m", 1, "cea_ok")]
+        busy, lost, plan = 0, 1, ["refused"]
+    else:
+        pre = [("m", 0, "cea_ok"), ("accept",), ("m", 1, "cer_p1")]
+        busy, lost, plan = 1, 0, ["ok"]
+    m = monitors.ScenarioModel(f"{n}-wake-ups-when-the-persistent-peer's-{'younger' if younger else 'older'}-connection-closes-itself", c,
+                               [("xn", busy, "dwr", n, lost, "badlen"), ("tick", 1), ("plan", "refused")], MONS, max_socks=4, start_plan=plan, prelude=pre)
+    return monitors.with_io_last([m]), (busy, lost)
+
+
+def flood_case(args):
+    """Another connection has n answers to write (n wake-up requests) in the instant in which the persistent peer's connection closes
+    itself on garbage: the peer must be reaped and dialled again after its reconnect wait.  Fixed history, both scheduling policies."""
+    n, io_last, younger = args
+    ms, (busy, lost) = flood_models(n, younger)
+    m = ms[1 if io_last else 0]
+    hist = (("xn", busy, "dwr", n, lost, "badlen"), ("tick", 1), ("tick", 1), ("tick", 1), ("tick", 1))
+    out = []
+    cnt = 0
+    for k in range(1, len(hist) + 1):
+        r = m.build(hist[:k])
+        cnt += 1
+        if r is None:
+            if k == 1:
+                raise RuntimeError(f"flood history not enabled in model {m.name}")
+            break
+        for key, d in r[1]:
+            out.append((key, f"[{m.name}] history {list(hist[:k])}: {d}", {"model": m.name, "history": [list(e) for e in hist[:k]], "flood": n, "younger": younger}))
+    return cnt, out
+
+
 def run(tier):
     rep = Report("C12", tier, "model_checking")
     common.pool()
@@ -139,6 +177,12 @@ def run(tier):
     ms = models(tier)
     tot = monitors.run_models(rep, [m for m in ms if not m.name.startswith("lost-peer-while")], depth, dedup_depth_plain=depth - 3, time_cap=1800 if tier == "thorough" else 110)
     # small alphabet, needs a horizon of several wake-up intervals
+    nflood = 0
+    for cnt, vsf in common.pmap(flood_case, [(n, pol, y) for n in (12, 50, 700) for pol in (False, True) for y in (False, True)], chunksize=1):
+        nflood += cnt
+        for key, detail, case in vsf:
+            rep.add(Violation(key, detail, case))
+    rep.cov["many_wake_ups_fixed_histories"] = nflood
     t2 = monitors.run_models(rep, [m for m in ms if m.name.startswith("lost-peer-while")], 10, dedup_depth_plain=None, time_cap=300 if tier == "thorough" else 60)
     for k in tot:
         tot[k] = max(tot[k], t2[k]) if k == "max_depth" else tot[k] + t2[k]
@@ -157,6 +201,15 @@ def replay(case):
         obs_vs, ch = scheddfs.replay_choices(functools.partial(sched_execute, case["sched"]), case["choices"])
         return [Violation(k, d) for k, d in sched_check(obs_vs)]
     hist = tuple(tuple(e) for e in case["history"])
+    if "flood" in case:
+        out = []
+        for m in flood_models(case["flood"], case.get("younger", False))[0]:
+            if m.name == case["model"]:
+                for k in range(1, len(hist) + 1):
+                    r = m.build(hist[:k])
+                    if r is not None:
+                        out += [Violation(key, d) for key, d in r[1]]
+        return out
     for m in models("thorough"):
         if m.name == case["model"]:
             out = []
